@@ -150,10 +150,11 @@ def _term(spec, c, o):
 
 def evaluate(spec, cases, obs, workdir, gen_q, name="cases"):
     terms = [_term(spec, c, o) for c, o in zip(cases, obs)]
+    weights = [spec.weight(c) for c in cases] if hasattr(spec, "weight") else None
     return C.run_case_shards(workdir, name, spec.HEADER + "\n" + getattr(spec, "GEN_IMPORT", ""),
                              spec.CASE_TYPE, spec.CHECK, terms,
                              shard=getattr(spec, "SHARD", 250), extra_q=gen_q,
-                             timeout=getattr(spec, "SHARD_TIMEOUT", 900))
+                             timeout=getattr(spec, "SHARD_TIMEOUT", 900), weights=weights)
 
 
 def model_view(spec, case, ob, workdir, gen_q) -> str:
